@@ -122,6 +122,38 @@ def call_kw_of(d):
     return {_CALL_KW[(blk, key)]: d[blk][key] for blk, key in d.get("by_call") or []}
 
 
+def read_via_file(stog, info, d):
+    """the dataset arrives through read_dataset: the columns are written to a text file (shortest round-tripping decimals, two header
+    lines) in the default column order or in another one named by xcol / ycol / dycol; the description is the same"""
+    import os
+    import shutil
+    import tempfile
+
+    import common as C
+    os.makedirs(C.SCRATCH, exist_ok=True)
+    tmp = tempfile.mkdtemp(prefix="ds_", dir=C.SCRATCH)
+    try:
+        data = info.pop("data")
+        x, y = data[0], data[1]
+        dy = data[2] if len(data) == 3 else None
+        name = os.path.join(tmp, "bank.dat")
+        cols, kw = ([x, y] + ([dy] if dy is not None else []), {})
+        if d["via_file"] == "cols":
+            junk = [7.0 + j for j in range(len(x))]
+            if dy is not None:
+                cols, kw = [dy, junk, x, y], {"xcol": 2, "ycol": 3, "dycol": 0}
+            else:
+                cols, kw = [junk, y, x], {"xcol": 2, "ycol": 1, "dycol": 5}
+        with open(name, "w") as fh:
+            fh.write("%d\n# written by the harness\n" % len(x))
+            for row in zip(*cols):
+                fh.write(" ".join(repr(float(v)) for v in row) + "\n")
+        info["Filename"] = name
+        stog.read_dataset(info, **dict(kw, **call_kw_of(d)))
+    finally:
+        shutil.rmtree(tmp, ignore_errors=True)
+
+
 def snap(stog):
     r = np.asarray(stog.reciprocal_individuals, float)
     s = np.asarray(stog.sq_individuals, float)
@@ -169,7 +201,10 @@ def run_sequence(pystog, cfg, datasets):
         else:
             info = info_of(d)
         infos.append(info)
-        stog.add_dataset(info, **call_kw_of(d))
+        if d.get("via_file") and d.get("reuse_info_of") is None:
+            read_via_file(stog, info, d)
+        else:
+            stog.add_dataset(info, **call_kw_of(d))
         sn = snap(stog)
         sn["mat"] = dict(cur)
         if rej is not None:
